@@ -394,7 +394,7 @@ class LemmaSet:
 
 class Contract:
     def __init__(self, module, qualname, make_args, requires=None, ensures=None, raises=None, loops=None,
-                 summary=None, definedness="D", inline_callees=(), notes="", hints=None, variant="", cuts=None):
+                 summary=None, definedness="D", inline_callees=(), notes="", hints=None, variant="", cuts=None, script=None):
         self.module = module
         self.qualname = qualname
         self.make_args = make_args        # (eng) -> (args dict, ghost dict)
@@ -409,6 +409,7 @@ class Contract:
         self.hints = hints or []          # [(statement prefix, fn(LoopState) -> [(label, term)])]  proved (class S) then assumed
         self.cuts = cuts or []            # [(statement prefix, fn(LoopState) -> {"ob": [...], "env": {...}, "assume": [...]})]
         self.variant = variant
+        self.script = script              # (eng, ArgView) -> result: a *sequence* of calls of real functions instead of one call
 
     @property
     def key(self):
@@ -837,11 +838,14 @@ class Engine:
         if isinstance(contract, LemmaSet):
             return self.run_lemmas(contract)
         mod = self.module(contract.module)
-        func = mod.find_function(contract.qualname)
-        if func is None or not isinstance(func, PyFunc):
-            raise Unsupported("function %s not found in %s" % (contract.qualname, contract.module))
-        self._check_loop_fingerprints(func, contract)
-        self._check_hint_patterns(func, contract, mod)
+        if contract.script is not None:
+            func = None
+        else:
+            func = mod.find_function(contract.qualname)
+            if func is None or not isinstance(func, PyFunc):
+                raise Unsupported("function %s not found in %s" % (contract.qualname, contract.module))
+            self._check_loop_fingerprints(func, contract)
+            self._check_hint_patterns(func, contract, mod)
         self.pending = [[]]
         n_paths = 0
         t0 = time.time()
@@ -944,7 +948,10 @@ class Engine:
                 return ("vacuous", None)
             outcome = None
             try:
-                res = self.call_function(func, [], args, top=True)
+                if contract.script is not None:
+                    res = contract.script(self, a)
+                else:
+                    res = self.call_function(func, [], args, top=True)
                 outcome = ("return", res)
             except PyRaise as ex:
                 outcome = ("raise", ex.typ, ex.msg)
@@ -955,6 +962,9 @@ class Engine:
                     # raises typ iff cond:   on this path, cond must agree with what happened
                     self.oblige("raises.%s" % label, zb(cond) if raised else z3.Not(zb(cond)), cls="P", tags=("raises",),
                                 detail="outcome=%s" % (outcome[:2],))
+            if outcome[0] == "return" and contract.script is None:
+                self.oblige("frame.no_store_into_argument_buffers", z3.BoolVal(len(self.frame_writes) == 0), cls="P", tags=("frame",),
+                            detail="stores into parameter-reachable buffers on this path: %s" % (self.frame_writes[:3],))
             if outcome[0] == "return":
                 for item in self.spec_eval(lambda: contract.ensures(a, outcome[1])):
                     label, goal = item[0], item[1]
